@@ -232,6 +232,11 @@ func (m mergeRunner) Run(c *Ctx, i int) CaseResult {
 				add("L0.order-content", fmt.Sprintf("merged type system differs between order %s and %v: %s", firstOrder, order, diffHint(first.Canon, out.Canon)), first.Canon, out.Canon)
 			}
 			if out.Kind == "ok" && rep == 0 {
+				// whatever the model says about compatibility: a construction that succeeded must contain every type,
+				// field, argument, enum value, union member and interface of every service it was built from
+				if miss := missingFromMerged(out.Fed.Merged, schemas, order); miss != "" {
+					add("L0.contains", "construction succeeded but the merged schema lacks "+miss, nil, nil)
+				}
 				// the merged schema must be a valid schema again
 				if _, err := gqlparser.LoadSchema(&ast.Source{Input: PrintSchema(out.Fed.Merged)}); err != nil {
 					add("L0.merged-invalid", "the printed merged schema does not load: "+firstLine(err.Error()), nil, nil)
@@ -314,7 +319,7 @@ func filterMerge(prop string, fails []Failure) []Failure {
 		case "C10":
 			keep = strings.HasPrefix(f.Channel, "L0.order") || f.Channel == "L0.sources-modified" || f.Channel == "harness"
 		case "C03":
-			keep = f.Channel == "L1.content" || f.Channel == "L1.outcome-rejected" || f.Channel == "L0.merged-invalid" || f.Channel == "L1.routing" || f.Channel == "harness" ||
+			keep = f.Channel == "L1.content" || f.Channel == "L1.outcome-rejected" || f.Channel == "L0.contains" || f.Channel == "L0.merged-invalid" || f.Channel == "L1.routing" || f.Channel == "harness" ||
 				f.Channel == "L0.construction-isolation" || f.Channel == "L0.sources-modified"
 		}
 		if keep {
@@ -426,4 +431,73 @@ func init() {
 	Runners["C03"] = mergeRunner{"C03"}
 	Runners["C09"] = mergeRunner{"C09"}
 	Runners["C10"] = mergeRunner{"C10"}
+}
+
+// missingFromMerged names the first definition part of a service that the merged schema does not hold ("" if none)
+func missingFromMerged(merged *ast.Schema, schemas []*ast.Schema, order []int) string {
+	for _, k := range order {
+		src := schemas[k]
+		var names []string
+		for n := range src.Types {
+			if !builtinName(n) {
+				names = append(names, n)
+			}
+		}
+		sort.Strings(names)
+		for _, n := range names {
+			d := src.Types[n]
+			m := merged.Types[n]
+			if d == nil {
+				continue
+			}
+			if m == nil {
+				return fmt.Sprintf("type %s of service %d", n, k)
+			}
+			if m.Kind != d.Kind {
+				return fmt.Sprintf("%s %s of service %d (merged as %s)", d.Kind, n, k, m.Kind)
+			}
+			for _, f := range d.Fields {
+				if strings.HasPrefix(f.Name, "__") {
+					continue
+				}
+				mf := m.Fields.ForName(f.Name)
+				if mf == nil {
+					return fmt.Sprintf("field %s.%s of service %d", n, f.Name, k)
+				}
+				for _, a := range f.Arguments {
+					if mf.Arguments.ForName(a.Name) == nil {
+						return fmt.Sprintf("argument %s.%s(%s:) of service %d", n, f.Name, a.Name, k)
+					}
+				}
+			}
+			for _, v := range d.EnumValues {
+				if v != nil && m.EnumValues.ForName(v.Name) == nil {
+					return fmt.Sprintf("enum value %s.%s of service %d", n, v.Name, k)
+				}
+			}
+			for _, t := range d.Types {
+				found := false
+				for _, mt := range m.Types {
+					if mt == t {
+						found = true
+					}
+				}
+				if !found {
+					return fmt.Sprintf("union member %s of %s of service %d", t, n, k)
+				}
+			}
+			for _, itf := range d.Interfaces {
+				found := false
+				for _, mi := range m.Interfaces {
+					if mi == itf {
+						found = true
+					}
+				}
+				if !found {
+					return fmt.Sprintf("interface %s of %s of service %d", itf, n, k)
+				}
+			}
+		}
+	}
+	return ""
 }
